@@ -54,6 +54,21 @@ func (l *logCapture) Handle(_ ctxT, r slog.Record) error {
 func (l *logCapture) WithAttrs([]slog.Attr) slog.Handler { return l }
 func (l *logCapture) WithGroup(string) slog.Handler      { return l }
 
+// lastError returns the most recent record of level error (or the last record at all).
+func (l *logCapture) lastError() string {
+	l.mu.Lock()
+	defer l.mu.Unlock()
+	for i := len(l.records) - 1; i >= 0; i-- {
+		if strings.Contains(l.records[i], "ERROR") || strings.Contains(l.records[i], "cannot") || strings.Contains(l.records[i], "fail") {
+			return l.records[i]
+		}
+	}
+	if len(l.records) > 0 {
+		return l.records[len(l.records)-1]
+	}
+	return ""
+}
+
 func (l *logCapture) has(sub string) bool {
 	l.mu.Lock()
 	defer l.mu.Unlock()
